@@ -15,24 +15,41 @@ class Raises(Exception):
         self.name = name
 
 
+STR_METHODS = ('lower', 'upper', 'casefold', 'strip', 'lstrip', 'rstrip', 'title', 'swapcase', 'capitalize')
+
+
+def eval_atom(e, val, alias=None):
+    """concrete value of an atom: constant, input (through alias), len()/str() of one, a case/strip method of a string"""
+    alias = alias or {}
+    if isinstance(e, ast.Call) and isinstance(e.func, ast.Attribute) and e.func.attr in STR_METHODS and not e.args \
+            and not e.keywords:
+        base = eval_atom(e.func.value, val, alias)
+        if base is None:
+            raise Raises('AttributeError')
+        if isinstance(base, str):
+            return getattr(base, e.func.attr)()
+        raise Unsupported('method %s on a non-string input' % e.func.attr)
+    if isinstance(e, ast.Constant):
+        return e.value
+    if isinstance(e, ast.UnaryOp) and isinstance(e.op, ast.USub) and isinstance(e.operand, ast.Constant):
+        return -e.operand.value
+    t = norm(e)
+    t = alias.get(t, t)
+    if t in val:
+        return val[t]
+    if isinstance(e, ast.Call) and norm(e.func) == 'len' and len(e.args) == 1:
+        return len(eval_atom(e.args[0], val, alias))
+    if isinstance(e, ast.Call) and norm(e.func) == 'str' and len(e.args) == 1:
+        return str(eval_atom(e.args[0], val, alias))
+    raise Unsupported('atom %r is not an input of the decision table' % t)
+
+
 def cond(test, val, alias=None):
     """Evaluate a boolean test whose atoms are names/attributes bound in `val`."""
     alias = alias or {}
 
     def atom(e):
-        if isinstance(e, ast.Constant):
-            return e.value
-        if isinstance(e, ast.UnaryOp) and isinstance(e.op, ast.USub) and isinstance(e.operand, ast.Constant):
-            return -e.operand.value
-        t = norm(e)
-        t = alias.get(t, t)
-        if t in val:
-            return val[t]
-        if isinstance(e, ast.Call) and norm(e.func) == 'len' and len(e.args) == 1:
-            return len(atom(e.args[0]))
-        if isinstance(e, ast.Call) and norm(e.func) == 'str' and len(e.args) == 1:
-            return str(atom(e.args[0]))
-        raise Unsupported('atom %r is not an input of the decision table' % t)
+        return eval_atom(e, val, alias)
 
     def ev(e):
         if isinstance(e, ast.BoolOp):
@@ -130,6 +147,13 @@ def decide(body, val, alias=None):
         if isinstance(st, ast.Break):
             return ('break',)
         if isinstance(st, ast.Expr) and isinstance(st.value, ast.Constant):
+            continue
+        if isinstance(st, ast.Assign) and len(st.targets) == 1 and isinstance(st.targets[0], ast.Name):
+            # a local holding (a case/strip transform of) an input
+            try:
+                val[st.targets[0].id] = eval_atom(st.value, val, alias)
+            except Raises as r:
+                return ('raise', r.name)
             continue
         raise Unsupported('statement %r is not part of a comparison skeleton' % norm(st).split('\n')[0])
     return ('fall',)
